@@ -16,6 +16,9 @@ impl<'a> FnCx<'a> {
     }
 
     fn stmts(&mut self, ss: &[syn::Stmt], want: Option<&Ty>, line: usize) -> R<(E, Ty)> {
+        // tail-flow flag of this statement list (see `FnCx::tail_ok`); every call below sets the
+        // flag explicitly for the position it translates
+        let tail = std::mem::replace(&mut self.tail_ok, false);
         if ss.is_empty() {
             let t = self.want(line, &Ty::Unit, want, "empty block")?;
             return Ok((E::Unit, t));
@@ -32,48 +35,136 @@ impl<'a> FnCx<'a> {
                     Some((_, e)) => e,
                     None => return self.no(sl, "`let` without initialiser"),
                 };
+                // `let msg = format!(..);` — a message, usable only as an error payload (abstracted)
+                if let (syn::Pat::Ident(pi), true) = (&l.pat, crate::expr::is_format_macro(init)) {
+                    if pi.by_ref.is_none() && pi.mutability.is_none() && pi.subpat.is_none() {
+                        self.msg_vars.insert(pi.ident.to_string());
+                        self.tail_ok = tail;
+                        return self.stmts(rest, want, sl);
+                    }
+                }
                 let (pat, declared) = match &l.pat {
                     syn::Pat::Type(pt) => (&*pt.pat, Some(self.d.ty(&self.file, &pt.ty, Some(&self.owner))?)),
                     p => (p, None),
                 };
-                let (ie, it) = self.expr(init, declared.as_ref())?;
+                let (ie, it) = self.expr_nt(init, declared.as_ref())?;
                 if matches!(self.resolve(&it), Ty::Res(..)) {
                     return self.no(sl, "a `Result` bound to a variable (only `?`, `return` and tail position are supported)");
                 }
                 let mut binds = Binds::new();
                 let p = self.pattern(pat, &it, &mut binds, true)?;
                 self.commit(binds);
+                self.tail_ok = tail;
                 let (body, bt) = self.stmts(rest, want, sl)?;
                 Ok((E::Let(p, Box::new(ie), Box::new(body)), bt))
             }
             syn::Stmt::Item(syn::Item::Use(u)) => {
                 self.local_use(sl, &u.tree, None)?;
+                self.tail_ok = tail;
                 self.stmts(rest, want, sl)
             }
             syn::Stmt::Item(syn::Item::Macro(m)) => {
+                self.tail_ok = false;
                 let (e, t) = self.macro_expr(sl, &m.mac)?;
-                self.sequence(sl, e, t, rest, want)
+                self.sequence(sl, e, t, rest, want, tail)
             }
             syn::Stmt::Item(_) => self.no(sl, "nested item in a function body"),
+            syn::Stmt::Semi(e, _) if matches!(e, syn::Expr::Assign(_) | syn::Expr::AssignOp(_)) => self.assign_self(sl, e, rest, want, tail),
             syn::Stmt::Semi(e, _) => {
+                // `if c { ..; return x; }` keeps the tail flow: every path through its block ends
+                // in a `return` (paired with the current `self`), so no join point follows it
+                self.tail_ok = tail && is_if_then_return(e);
                 let (ir, t) = self.expr(e, None)?;
                 if matches!(self.resolve(&t), Ty::Res(..)) {
                     return self.no(sl, format!("`{}`: unused `Result`", short(e)));
                 }
-                self.sequence(sl, ir, t, rest, want)
+                self.sequence(sl, ir, t, rest, want, tail)
             }
             syn::Stmt::Expr(e) => {
                 if rest.is_empty() {
+                    self.tail_ok = tail;
                     self.expr(e, want)
                 } else {
+                    self.tail_ok = tail && is_if_then_return(e);
                     let (ir, t) = self.expr(e, Some(&Ty::Unit))?;
-                    self.sequence(sl, ir, t, rest, want)
+                    self.sequence(sl, ir, t, rest, want, tail)
                 }
             }
         }
     }
 
-    fn sequence(&mut self, sl: usize, first: E, first_ty: Ty, rest: &[syn::Stmt], want: Option<&Ty>) -> R<(E, Ty)> {
+    /// `self.field = e;` / `self.field op= e;` in a target that takes `&mut self` on a whitelisted
+    /// struct of integer fields: a functional update of `self`, visible to the REST of this
+    /// statement list.  Only accepted in the tail flow of the body (no join point after it), so
+    /// that the updated `self` can never be lost; everything else is refused.
+    pub(crate) fn assign_self(&mut self, sl: usize, e: &syn::Expr, rest: &[syn::Stmt], want: Option<&Ty>, tail: bool) -> R<(E, Ty)> {
+        use syn::BinOp as B;
+        let (lhs, rhs, op): (&syn::Expr, &syn::Expr, Option<BinOp>) = match e {
+            syn::Expr::Assign(a) => (&a.left, &a.right, None),
+            syn::Expr::AssignOp(a) => (
+                &a.left,
+                &a.right,
+                Some(match a.op {
+                    B::AddEq(_) => BinOp::Add,
+                    B::SubEq(_) => BinOp::Sub,
+                    B::MulEq(_) => BinOp::Mul,
+                    B::DivEq(_) => BinOp::Div,
+                    B::RemEq(_) => BinOp::Rem,
+                    B::BitAndEq(_) => BinOp::BitAnd,
+                    B::BitOrEq(_) => BinOp::BitOr,
+                    B::BitXorEq(_) => BinOp::BitXor,
+                    _ => return self.no(sl, format!("compound assignment `{}`", tok(&a.op))),
+                }),
+            ),
+            _ => unreachable!(),
+        };
+        if !(self.mut_self && self.inline_stack.len() == 1) {
+            return self.no(sl, format!("`{}`: assignment (only `self.field = e` in a `&mut self` method of a whitelisted struct is supported)", short(e)));
+        }
+        if !tail {
+            return self.no(sl, format!("`{}`: assignment to `self` outside the tail flow of the body (a join point follows)", short(e)));
+        }
+        let field = match lhs {
+            syn::Expr::Field(f) => match (&*f.base, &f.member) {
+                (syn::Expr::Path(p), syn::Member::Named(id)) if p.qself.is_none() && p.path.is_ident("self") => id.to_string(),
+                _ => return self.no(sl, format!("`{}`: assignment target is not `self.field`", short(e))),
+            },
+            _ => return self.no(sl, format!("`{}`: assignment target is not `self.field`", short(e))),
+        };
+        let (cur, sty) = match self.lookup("self") {
+            Some(x) => x,
+            None => return self.no(sl, "assignment without `self` in scope"),
+        };
+        let sname = match &sty {
+            Ty::Struct(s) => s.clone(),
+            other => return self.no(sl, format!("assignment to a field of {:?}", other)),
+        };
+        let ft = match self.d.structs[&sname].fields.iter().find(|(n, _)| *n == field) {
+            Some((_, t)) => t.clone(),
+            None => return self.no(sl, format!("struct `{}` has no field `{}`", sname, field)),
+        };
+        if !matches!(ft, Ty::Int(..) | Ty::Bool) {
+            return self.no(sl, format!("assignment to the non-integer field `{}`", field));
+        }
+        let (r, _) = self.expr_nt(rhs, Some(&ft))?;
+        let lf = lean_ident(&field);
+        let value = match op {
+            None => r,
+            Some(o) => {
+                if matches!(ft, Ty::Bool) && !matches!(o, BinOp::BitAnd | BinOp::BitOr | BinOp::BitXor) {
+                    return self.no(sl, "arithmetic compound assignment on a bool field");
+                }
+                E::Bin(o, Box::new(E::Field(Box::new(E::Var(cur.clone())), lf.clone())), Box::new(r), ft.clone(), ft.clone())
+            }
+        };
+        let new = self.bind("self", sty);
+        self.self_versions.insert(new.clone());
+        self.tail_ok = tail;
+        let (body, bt) = self.stmts(rest, want, sl)?;
+        Ok((E::Let(Pat::Var(new), Box::new(E::StructUpd(Box::new(E::Var(cur)), lf, Box::new(value))), Box::new(body)), bt))
+    }
+
+    fn sequence(&mut self, sl: usize, first: E, first_ty: Ty, rest: &[syn::Stmt], want: Option<&Ty>, tail: bool) -> R<(E, Ty)> {
         if rest.is_empty() {
             // `e;` as last statement: the block has type `()` unless `e` diverges
             let t = if matches!(self.resolve(&first_ty), Ty::Never) { Ty::Never } else { Ty::Unit };
@@ -83,6 +174,7 @@ impl<'a> FnCx<'a> {
         if matches!(first, E::Return(_) | E::Panic) {
             return self.no(sl, "unreachable statements after a diverging expression");
         }
+        self.tail_ok = tail;
         let (body, bt) = self.stmts(rest, want, sl)?;
         Ok((E::Let(Pat::Wild, Box::new(first), Box::new(body)), bt))
     }
@@ -130,6 +222,8 @@ impl<'a> FnCx<'a> {
 
     fn commit(&mut self, binds: Binds) {
         for (rust, (lean, ty)) in binds {
+            // a value binding shadows a message local of the same name
+            self.msg_vars.remove(&rust);
             self.scopes.last_mut().unwrap().push((rust, lean, ty));
         }
     }
@@ -334,8 +428,8 @@ impl<'a> FnCx<'a> {
         Ok(Pat::Ctor(en.to_string(), vn.to_string(), out))
     }
 
-    pub(crate) fn match_expr(&mut self, line: usize, m: &syn::ExprMatch, want: Option<&Ty>) -> R<(E, Ty)> {
-        let (s, st) = self.expr(&m.expr, None)?;
+    pub(crate) fn match_expr(&mut self, line: usize, m: &syn::ExprMatch, want: Option<&Ty>, tail: bool) -> R<(E, Ty)> {
+        let (s, st) = self.expr_nt(&m.expr, None)?;
         if matches!(self.resolve(&st), Ty::Res(..)) {
             return self.no(line, "`match` on a `Result`");
         }
@@ -348,9 +442,10 @@ impl<'a> FnCx<'a> {
                 let pat = self.pattern(&a.pat, &st, &mut binds, false)?;
                 self.commit(binds);
                 let guard = match &a.guard {
-                    Some((_, g)) => Some(self.expr(g, Some(&Ty::Bool))?.0),
+                    Some((_, g)) => Some(self.expr_nt(g, Some(&Ty::Bool))?.0),
                     None => None,
                 };
+                self.tail_ok = tail;
                 let (body, bt) = self.expr(&a.body, ty.as_ref())?;
                 ty = Some(match &ty {
                     Some(t) => self.unify(line_of(&a.body), t, &bt, "`match` arms")?,
@@ -447,6 +542,16 @@ impl<'a> FnCx<'a> {
                 }
                 Ok(())
             }
+            E::StructLit(_, fs) => {
+                for (_, x) in fs.iter_mut() {
+                    self.zonk(x, line)?;
+                }
+                Ok(())
+            }
+            E::StructUpd(a, _, b) => {
+                self.zonk(a, line)?;
+                self.zonk(b, line)
+            }
             E::Method(_, v, t) => {
                 for x in v.iter_mut() {
                     self.zonk(x, line)?;
@@ -521,6 +626,17 @@ impl<'a> FnCx<'a> {
                 self.zonk(body, line)
             }
         }
+    }
+}
+
+/// an `else`-less `if` whose block ends in a `return` statement
+fn is_if_then_return(e: &syn::Expr) -> bool {
+    match e {
+        syn::Expr::If(i) if i.else_branch.is_none() && i.attrs.is_empty() => match i.then_branch.stmts.last() {
+            Some(syn::Stmt::Semi(syn::Expr::Return(_), _)) | Some(syn::Stmt::Expr(syn::Expr::Return(_))) => true,
+            _ => false,
+        },
+        _ => false,
     }
 }
 
